@@ -268,6 +268,30 @@ class CustomFencedCode(block.FencedCode):
         )
 
 
+class CustomFootnoteDef(footnote.FootnoteDef):
+    """
+    FootnoteDef whose line prefix is safe for Marko's tab-expanded prefix matching.
+
+    Marko matches block prefixes against lines with tabs expanded (`Source.match_prefix`),
+    but `FootnoteDef` builds its prefix from the raw matched text. With a tab after the
+    marker (`[^1]:<TAB>text`) the prefix can never match its own first line and the parser
+    loops forever without consuming input. Expand the tabs in the prefix the same way.
+    """
+
+    def __init__(self, match: re.Match[str]) -> None:
+        super().__init__(match)
+        # (Up to three spaces of leading indentation are allowed by the pattern; after a
+        # container marker followed by a tab their number differs between the raw and the
+        # tab-expanded line, so match them loosely.)
+        self._prefix: str = r" {,3}" + re.escape(match.group().expandtabs(4).lstrip(" "))
+
+    @override
+    @classmethod
+    def get_type(cls, snake_case: bool = False) -> str:
+        # Ensure renderer dispatch uses "footnote_def" not "custom_footnote_def".
+        return "footnote_def" if snake_case else "FootnoteDef"
+
+
 class CustomParser(Parser):
     def __init__(self) -> None:
         super().__init__()
@@ -806,6 +830,8 @@ def flowmark_markdown(
             # Add GFM footnote support.
             footnote_ext = footnote.make_extension()
             for e in footnote_ext.elements:
+                if e is footnote.FootnoteDef:
+                    e = CustomFootnoteDef
                 assert (
                     e not in custom_parser.block_elements and e not in custom_parser.inline_elements
                 )
